@@ -58,6 +58,32 @@ class _float(float):
         return super().__hash__() + 1
 
 
+class _bool(int):
+    # Booleans are equal to (and hash like) the integers 0 and 1 in Python. Analogous to
+    # _float above, we manipulate the hash value so that a bool and an int that share the
+    # same numerical value are stored separately within a search index (dict).
+    def __hash__(self):
+        return super().__hash__() + 2
+
+
+def _wrap_key(key):
+    """Wrap keys whose type would otherwise be conflated with int within a dict."""
+    if type(key) is float:
+        return _float(key)
+    elif type(key) is bool:
+        return _bool(key)
+    return key
+
+
+def _unwrap_key(key):
+    """Invert :func:`_wrap_key`."""
+    if type(key) is _float:
+        return float(key)
+    elif type(key) is _bool:
+        return bool(key)
+    return key
+
+
 class _TypedSetDefaultDict(dict):
     """Dictionary that is guaranteed to store differently typed values separately.
 
@@ -69,13 +95,13 @@ class _TypedSetDefaultDict(dict):
 
     def keys(self):
         for key in dict.keys(self):
-            yield float(key) if type(key) is _float else key
+            yield _unwrap_key(key)
 
     __iter__ = keys
 
     def items(self):
         for key, value in dict.items(self):
-            yield float(key) if type(key) is _float else key, value
+            yield _unwrap_key(key), value
 
     def __missing__(self, key):
         value = set()
@@ -83,13 +109,13 @@ class _TypedSetDefaultDict(dict):
         return value
 
     def __getitem__(self, key):
-        return dict.__getitem__(self, _float(key) if type(key) is float else key)
+        return dict.__getitem__(self, _wrap_key(key))
 
     def __setitem__(self, key, value):
-        return dict.__setitem__(self, _float(key) if type(key) is float else key, value)
+        return dict.__setitem__(self, _wrap_key(key), value)
 
     def __delitem__(self, key):
-        dict.__delitem__(self, _float(key) if type(key) is float else key)
+        dict.__delitem__(self, _wrap_key(key))
 
     def get(self, key, default=None):
         """Get the value for given key.
@@ -106,7 +132,7 @@ class _TypedSetDefaultDict(dict):
         The value for given key.
 
         """
-        return dict.get(self, _float(key) if type(key) is float else key, default)
+        return dict.get(self, _wrap_key(key), default)
 
 
 def _find_with_index_operator(index, op, argument):
@@ -371,7 +397,11 @@ class _SearchIndexer(dict):
             if isinstance(value, Number) and float(value).is_integer():
                 result_float = index.get(_float(value), set())
                 result_int = index.get(int(value), set())
-                return result_int.union(result_float)
+                result = result_int.union(result_float)
+                if value == 0 or value == 1:
+                    # Booleans compare equal to the integers 0 and 1.
+                    result = result.union(index.get(bool(value), set()))
+                return result
             else:
                 return index.get(value, set())
 
